@@ -1,3 +1,4 @@
+import BlugeProofs.C12.PeekC
 import Bluge.Codec
 import BlugeProofs.C12.Reader
 import BlugeProofs.C12.Decode
@@ -169,6 +170,12 @@ theorem peekUvarint_posGe (inp : Bytes) (strict : Bool) (r : Rd) :
       · exact posGe_error _ _ _
       · exact posGe_ok (Nat.le_trans h1 h2)
 
+theorem peekUvarintC_posGe (cfg : Cfg) (inp : Bytes) (strict : Bool) (r : Rd) :
+    posGe r.pos (fun x : Nat × Nat × Rd => x.2.2) (peekUvarintC cfg inp strict r) := by
+  rcases peekUvarintC_cases cfg inp strict r with h | h
+  · rw [h]; exact peekUvarint_posGe inp strict r
+  · rw [h]; exact posGe_error _ _ _
+
 theorem makeBytes_posGe (site : Site) (lim n : Nat) (r : Rd) : posGe r.pos (fun x : Rd => x) (makeBytes site lim n r) := by
   unfold makeBytes
   split
@@ -219,7 +226,7 @@ theorem readDelBytes_posGe (cfg : Cfg) (inp : Bytes) (lim n : Nat) (r : Rd) :
 theorem readVarLenString_posGe (cfg : Cfg) (inp : Bytes) (lim : Nat) (r : Rd) :
     posGe r.pos (fun x : Bytes × Nat × Rd => x.2.2) (readVarLenString cfg inp lim r) := by
   unfold readVarLenString
-  apply posGe_bind (peekUvarint_posGe inp _ r)
+  apply posGe_bind (peekUvarintC_posGe cfg inp _ r)
   rintro ⟨strLen, k, r1⟩ h1
   apply posGe_bind (posGe_mono h1 (readStrBytes_posGe cfg inp lim strLen r1))
   rintro ⟨s, k2, r2⟩ h2
@@ -229,9 +236,9 @@ section
 variable {R : Type} (ro : Roar R)
 
 local macro "seg_tail_pos" h:ident : tactic => `(tactic| (
-    apply posGe_bind (posGe_mono $h (peekUvarint_posGe _ _ _))
+    apply posGe_bind (posGe_mono $h (peekUvarintC_posGe _ _ _ _))
     rintro ⟨id, n3, r3⟩ h3
-    apply posGe_bind (posGe_mono h3 (peekUvarint_posGe _ _ _))
+    apply posGe_bind (posGe_mono h3 (peekUvarintC_posGe _ _ _ _))
     rintro ⟨delLen, n4, r4⟩ h4
     dsimp only
     split
@@ -290,16 +297,16 @@ theorem readFromRd_posGe (cfg : Cfg) (inp : Bytes) (lim : Nat) (r : Rd) (p : Nat
     posGe p (fun x : List (Seg R) × Nat × Rd => x.2.2) (readFromRd ro cfg inp lim r) := by
   unfold readFromRd
   intro a ha
-  cases hpk : peekUvarint inp false r with
+  cases hpk : peekUvarintC cfg inp false r with
   | ok x =>
     obtain ⟨v, k, r1⟩ := x
-    have hp := hfirst v k r1 hpk
+    have hp := hfirst v k r1 (peekUvarintC_ok hpk)
     rw [hpk] at ha
     simp only [ok_bind] at ha
     revert a
     show posGe p _ _
     split
-    · apply posGe_bind (posGe_mono hp (peekUvarint_posGe inp false r1))
+    · apply posGe_bind (posGe_mono hp (peekUvarintC_posGe cfg inp false r1))
       rintro ⟨c, n1, r2⟩ h2
       apply posGe_bind (posGe_mono h2 (readSegments_posGe ro cfg inp lim _ r2))
       rintro ⟨ss, m, r3⟩ h3
